@@ -92,11 +92,13 @@ class WebVTTReader(BaseReader):
                     raise type(e)(new_msg).with_traceback(tb) from None
 
             elif "" == line:
-                if found_timing and nodes:
+                if found_timing:
+                    # a blank line ends the cue, whether or not it had any text
                     found_timing = False
-                    caption = Caption(start, end, nodes, layout_info=layout_info)
-                    captions.append(caption)
-                    nodes = []
+                    if nodes:
+                        caption = Caption(start, end, nodes, layout_info=layout_info)
+                        captions.append(caption)
+                        nodes = []
             else:
                 if found_timing:
                     if nodes:
